@@ -257,9 +257,9 @@ fn pick_content(rng: &mut Rng, pt: Pt) -> Content {
     }
 }
 
-const SRC_TYPED: [Kind; 6] = [Kind::Slice, Kind::Buffer, Kind::ImgAsSrc, Kind::Owned, Kind::CropRef, Kind::CropNew];
+const SRC_TYPED: [Kind; 7] = [Kind::Slice, Kind::Buffer, Kind::ImgAsSrc, Kind::Owned, Kind::CropRef, Kind::CropNew, Kind::CropMutAsSrc];
 const DST_TYPED: [Kind; 5] = [Kind::Slice, Kind::Buffer, Kind::Owned, Kind::CropRef, Kind::CropNew];
-const SRC_DYN: [Kind; 5] = [Kind::DynSlice, Kind::DynImgAsSrc, Kind::DynOwned, Kind::DynCrop, Kind::DynCrop2];
+const SRC_DYN: [Kind; 6] = [Kind::DynSlice, Kind::DynImgAsSrc, Kind::DynOwned, Kind::DynCrop, Kind::DynCrop2, Kind::DynCropMutAsSrc];
 const DST_DYN: [Kind; 4] = [Kind::DynSlice, Kind::DynOwned, Kind::DynCrop, Kind::DynCrop2];
 
 /// (source kind, destination kind), only pairs that are compiled in
@@ -798,6 +798,12 @@ pub fn generate(k: &Knobs, seed: u64) -> Scenario {
                     }
                     if matches!(r0.src.kind, Kind::DynImgAsSrc) {
                         r0.src.kind = Kind::DynSlice;
+                    }
+                    if matches!(r0.src.kind, Kind::CropMutAsSrc) {
+                        r0.src.kind = Kind::CropRef;
+                    }
+                    if matches!(r0.src.kind, Kind::DynCropMutAsSrc) {
+                        r0.src.kind = Kind::DynCrop;
                     }
                     let mut fired = false;
                     for (ci, cl) in scn.clients.iter_mut().enumerate() {
